@@ -68,7 +68,8 @@ def parseMsg (t : String) : Option Msg :=
   | ["cs.notfound"] => some (.cs .intersectNotFound)
   | ["cs.done"] => some (.cs .done)
   | ["tx.init"] => some (.tx .init)
-  | ["tx.reqids"] => some (.tx .requestTxIds)
+  | ["tx.reqids"] => some (.tx (.requestTxIds true))
+  | ["tx.reqidsnb"] => some (.tx (.requestTxIds false))
   | ["tx.replyids"] => some (.tx .replyTxIds)
   | ["tx.reqtxs"] => some (.tx .requestTxs)
   | ["tx.replytxs", n] => (Tok.nat? n).map (fun n => .tx (.replyTxs n))
@@ -116,7 +117,8 @@ def showMsg (tbl : Bool) : Msg → String
   | .cs .intersectNotFound => "cs.notfound"
   | .cs .done => "cs.done"
   | .tx .init => "tx.init"
-  | .tx .requestTxIds => "tx.reqids"
+  | .tx (.requestTxIds true) => "tx.reqids"
+  | .tx (.requestTxIds false) => "tx.reqidsnb"
   | .tx .replyTxIds => "tx.replyids"
   | .tx .requestTxs => "tx.reqtxs"
   | .tx (.replyTxs n) => s!"tx.replytxs:{n}"
